@@ -61,3 +61,6 @@ def correspondence(ctx, verdict, pr):
     res = _corr(ctx, verdict, pr)
     res['broken'] += hooks(ctx, verdict)
     return res
+
+
+MANIFEST = {'technique': 'Coq invariant proofs over all label sequences (faults, closes, timers) of a session-pair model; model tied to multiplex.Session by lock-step differential execution under testing/synctest; schedule-point replays for the races inside a label', 'level_text': 'Theorems C12_teardown_complete, C12_nothing_left_blocked, C12_connections_closed, C12_fault_closes_sessions, C12_timer_only_when_idle and the invariant C12_wellformed_always are proved in Coq for EVERY sequence of labels (open/write/read/accept/close stream/close session/deliver on any connection/FIN/reset/timer tick, both sides, any number of connections, any connection picks) of the hand-written session-pair model coq/Model/Mux.v by induction with an explicit invariant. The model is tied to the code on every run: seeded scenarios are executed label by label on two real Sessions over harness-owned in-memory connections (virtual clock, quiescence barrier) and on the extracted model, every observable (frames on the wire, return values, blocked calls returning, connection closes, counters) is compared; an independent oracle checks prefix delivery, count = open streams at quiescent moments, no call left blocked, connections closed. The two races that live inside a label (OpenStream vs Close, inactivity check vs stream registration) are replayed with schedule points.', 'level_note': "Granularity: one label runs to quiescence; goroutine interleavings inside a label are covered only by the schedule-point replays, the race detector and C13's fine-grained model. The count invariant (activeStreamCount = open streams) is checked by the oracle at every state dump, not yet a theorem. Connections are FIFO and a reset is seen by both ends (property text). Trusted: Coq kernel, extraction, synctest.", 'design_ref': 'DESIGN.md section 6, C12'}
